@@ -560,7 +560,7 @@ func checkC19(r *verdict.Run) {
 	parallel(ncrash, 8, func(i int) { c19Crash(r, i+int(r.Seed)%8, i%4 == 3) })
 	nwe := tierPick(r, 6, 30)
 	parallel(nwe, 6, func(i int) { c19WriteError(r, i+int(r.Seed)) })
-	r.Assume("fault model: process death (SIGKILL) at the hooked stages of a snapshot write; power loss (page cache, rename durability) is out of scope")
+	r.Assume("fault model: process death (SIGKILL) at the hooked stages of a snapshot write, and write(2) on the snapshot's temporary file failing with ENOSPC (injected by strace, counted per thread); power loss (page cache, rename durability) is out of scope")
 }
 
 // ---- 5. write errors ------------------------------------------------------------------------------------
